@@ -170,4 +170,14 @@ CLAIMED['C19'] = {
     'technique': 'contract-based deductive verification for the emitted-text structure (symbolic execution, z3); bounded stand-in (labelled) for the matching direction',
 }
 
+CLAIMED['C14'] = {
+    'category': 'proof',
+    'text': 'For every modifier kind and for shapes of several modifiers, the real _modifier_to_expr is run on sentinel values, its output is parsed by CPython and given the documented '
+            'meaning with sentinels replaced by symbols, the real check_all_conditions / evaluate_*_condition are executed symbolically, and the two meanings are proved equal for all amounts '
+            'and dates; the escaping structure of the regex() literal is proved. Decoding of the literal, the line-level round trip through the .rules parser and whole-file classification are '
+            'exercised by the labelled bounded oracle. Three recorded known findings (relative dates dropped, patterns starting with "(", surrounding blanks in names).',
+    'level_note': _BASE_NOTE + ' Regular expressions opaque (A6); float repr round trip and date ordinals assumed; the meaning function of the emitted fragment is the documented one (C04).',
+    'technique': 'contract-based deductive verification (sentinel execution of the converter + symbolic execution of the CSV evaluators, equivalence by z3) + bounded differential oracle on CSV vs migrated files',
+}
+
 NOT_APPLICABLE = {}
